@@ -19,7 +19,7 @@ vars == <<run, idx, ok, st>>
 ExplainsIndex(cfg, c, r, mp) ==
     LET A == Members(cfg.alpha) IN
     /\ r.st = "ok"
-    /\ CASE c.op = "new" -> TRUE
+    /\ CASE c.op \in {"new", "clone", "serde", "clone_from"} -> TRUE     \* (queries go to either object)
          [] c.op = "qgram_matches" -> r.v = Positions(cfg.text, cfg.q, c.a.g, cfg.max_count)
          [] c.op = "matches" ->
               ListIsSet(r.v, MatchSetMp(cfg.text, c.a.p, cfg.q, mp, c.a.min_count))
@@ -36,11 +36,37 @@ CodesOk(A, q, grams, r) ==
            THEN Len(r.v) = n /\ \A i \in 1..n : r.v[i] = Code(A, grams[i])
            ELSE r.v = << >>
 
+\* the same code sequence C consumed through other iterator methods (only logged for codes < 2^30)
+OptAt(C, i) == IF i >= 1 /\ i <= Len(C) THEN C[i] ELSE -1
+EveryNth(C, step) == [i \in 1..((Len(C) + step - 1) \div step) |-> C[(i - 1) * step + 1]]
+IterOk(A, q, t, r) ==
+    LET F == [i \in 1..NGrams(t, q) |-> Code(A, FwdGrams(t, q)[i])]
+        R == [i \in 1..NGrams(t, q) |-> Code(A, RevGrams(t, q)[i])]
+        n == NGrams(t, q)
+    IN  /\ r.count = n /\ r.rcount = n /\ r.len = n
+        /\ r.lo = n /\ r.hi = n /\ r.rlo = n /\ r.rhi = n            \* exact size hints (ExactSizeIterator)
+        /\ r.last = OptAt(F, n) /\ r.rlast = OptAt(R, n)
+        /\ r.nth = [k \in 1..4 |-> OptAt(F, k)] /\ r.rnth = [k \in 1..4 |-> OptAt(R, k)]
+        /\ r.skip2 = SubSeq(F, 3, n)
+        /\ r.step3 = EveryNth(F, 3) /\ r.rstep2 = EveryNth(R, 2)
+        /\ \A i \in 1..Len(r.forks) :
+              /\ r.forks[i].h \o r.forks[i].a = F /\ r.forks[i].h \o r.forks[i].b = F
+              /\ r.forks[i].rh \o r.forks[i].ra = R /\ r.forks[i].rh \o r.forks[i].rb = R
+VariantsOk(A, q, t, r) ==
+    LET F == [i \in 1..NGrams(t, q) |-> Code(A, FwdGrams(t, q)[i])]
+        R == [i \in 1..NGrams(t, q) |-> Code(A, RevGrams(t, q)[i])]
+    IN  /\ Len(r.f) >= 1 /\ Len(r.r) >= 1
+        /\ \A i \in 1..Len(r.f) : r.f[i] = F
+        /\ \A i \in 1..Len(r.r) : r.r[i] = R
+
 ExplainsCodes(cfg, c, r) ==
     LET A == Members(cfg.alpha) IN
     /\ r.st = "ok"
     /\ CASE c.op = "codes"     -> CodesOk(A, cfg.q, FwdGrams(c.a.t, cfg.q), r)
          [] c.op = "rev_codes" -> CodesOk(A, cfg.q, RevGrams(c.a.t, cfg.q), r)
+         [] c.op = "serde"     -> TRUE
+         [] c.op = "codes_iter"     -> Bits(Cardinality(A)) * cfg.q <= 30 /\ IterOk(A, cfg.q, c.a.t, r)
+         [] c.op = "codes_variants" -> Bits(Cardinality(A)) * cfg.q <= 30 /\ VariantsOk(A, cfg.q, c.a.t, r)
          [] OTHER -> FALSE
 
 Explains(cfg, e, mp) ==
